@@ -140,7 +140,7 @@ BEdgesFailing(c, o, nb) ==
 \* the limits exactly once in non-decreasing order of value (the order among equal values
 \* is not prescribed); low/high are the smallest/largest listed member; a centre is not
 \* defined by the statement for these bins and is not looked at.
-BByNumFailing(c, o) ==
+BByNumStructFailing(c, o) ==
     LET cnt == BCounts(c)  nb == Len(cnt)
     IN IF Len(o.hist) # nb THEN {"nperbin_number_of_bins"}
        ELSE (IF \A i \in 1..nb : o.hist[i] = cnt[i] THEN {} ELSE {"nperbin_occupancy"}) \cup
@@ -157,8 +157,12 @@ BByNumFailing(c, o) ==
                             ELSE (IF \A i \in 1..nb : LET P == VRange(Slice(o, i - 1))
                                                       IN P = {} \/ SObsEq(o.low[i], RInt(SMinOf(c.x, P))) THEN {} ELSE {"nperbin_low"}) \cup
                                  (IF \A i \in 1..nb : LET P == VRange(Slice(o, i - 1))
-                                                      IN P = {} \/ SObsEq(o.high[i], RInt(SMaxOf(c.x, P))) THEN {} ELSE {"nperbin_high"})) \cup
-                           BStatsFailing(c, o, nb)))
+                                                      IN P = {} \/ SObsEq(o.high[i], RInt(SMaxOf(c.x, P))) THEN {} ELSE {"nperbin_high"}))))
+
+\* the statistics are judged once the bins themselves are in order
+BByNumFailing(c, o) ==
+    LET s == BByNumStructFailing(c, o)
+    IN IF s # {} THEN s ELSE BStatsFailing(c, o, Len(BCounts(c)))
 
 \* ---- the whole observation ---------------------------------------------------------------------
 BFailing(c, o) ==
